@@ -24,6 +24,7 @@ SCRIPTS = {
     'long-delay-then-loop': 'time 3 repeat begin on "A" end',
 }
 NEXT_JOB = 'on "C" off "C"'
+NEXT_FOREVER = 'repeat begin on "C" off "C" end'
 LATER_JOB = 'time 1 on "C" off "C"'
 
 
@@ -58,7 +59,8 @@ def scenario(ctx, script_key, stop_api, with_next, max_preempt, later=False):
         JC = simsched.traced(jc_mod.JobControl, ['_active_agent'])
         jc = JC()
         job = ScriptJob.from_string(SCRIPTS[script_key])
-        nxt = ScriptJob.from_string(NEXT_JOB) if with_next else None
+        aim_next = stop_api == 'stop_next'
+        nxt = ScriptJob.from_string(NEXT_FOREVER if aim_next else NEXT_JOB) if with_next else None
         lat = ScriptJob.from_string(LATER_JOB) if later else None
         assert job.program is not None
         marks = {}
@@ -93,7 +95,14 @@ def scenario(ctx, script_key, stop_api, with_next, max_preempt, later=False):
             cur = jc.__dict__.get('$_active_agent')
             marks['current_at_stop'] = cur.name if cur is not None else None
             simsched.Sched.cur_sched = s
-            if stop_api == 'stop_job':
+            if stop_api == 'stop_next':
+                # the stop is aimed at the job queued behind: it takes effect once that job has been started
+                for attempt in range(24):
+                    marks['result'] = jc.stop_job('next')
+                    if marks['result']:
+                        break
+                    simsched.ShimTime.sleep(TICK)
+            elif stop_api == 'stop_job':
                 marks['result'] = jc.stop_job('main')
             elif stop_api == 'stop_current':
                 marks['result'] = jc.stop_current()
@@ -125,6 +134,11 @@ def scenario(ctx, script_key, stop_api, with_next, max_preempt, later=False):
             if t.exc is not None:
                 problems.append('%s: exception escapes: %s: %s' % (t.name, type(t.exc).__name__, t.exc))
         main_cmds_after = [e for e in net.trace[marks.get('returned', len(net.trace)):] if e[0] == 'power' and e[1] in ('A', 'B')]
+        if aim_next:
+            main_cmds_after = [e for e in net.trace[marks.get('returned', len(net.trace)):] if e[0] == 'power' and e[1] == 'C'] \
+                if marks.get('result') else []
+            if 'returned' in marks and not marks.get('result'):
+                problems.append('the queued job never became stoppable by name (stop_job kept returning False)')
         stopped_something = marks.get('result')
         main_finished_by_itself = script_key == 'straight' and len([e for e in net.trace if e[0] == 'power' and e[1] in ('A', 'B')]) == 4
         if s.out_of_steps or hung:
@@ -136,7 +150,7 @@ def scenario(ctx, script_key, stop_api, with_next, max_preempt, later=False):
             problems.append('%d further commands of the stopped script reached the lights after the stop returned' % len(main_cmds_after))
         c_cmds = [e for e in net.trace if e[0] == 'power' and e[1] == 'C']
         if not s.out_of_steps and not hung:
-            if with_next and stop_api in ('stop_job', 'stop_current') and marks.get('current_at_stop') != 'next':
+            if with_next and not aim_next and stop_api in ('stop_job', 'stop_current') and marks.get('current_at_stop') != 'next':
                 if len(c_cmds) < 2:
                     problems.append('the next queued job did not run to completion after the stop (%d of 2 commands)' % len(c_cmds))
             if with_next and stop_api == 'stop_all':
@@ -212,6 +226,9 @@ def run(tier, seed):
             for nxt in ((False, True) if api != 'stop_background' else (False,)):
                 items.append({'script': script, 'api': api, 'next': nxt, 'later': False, 'preempt': 2 if q else 3,
                               'max_paths': 2500 if q else 150000, 'budget_s': 30 if q else 600})
+        if script in ('straight', 'timed'):
+            items.append({'script': script, 'api': 'stop_next', 'next': True, 'later': False, 'preempt': 2 if q else 3,
+                          'max_paths': 2500 if q else 150000, 'budget_s': 30 if q else 600})
         items.append({'script': script, 'api': 'stop_job', 'next': False, 'later': True, 'preempt': 1 if q else 2,
                       'max_paths': 2500 if q else 150000, 'budget_s': 30 if q else 600})
     results, skipped = report.run_pool(worker, items, budget_s=common.tier_budget(tier, 80, 1000))
